@@ -48,6 +48,15 @@ func randHistory(rng *core.Rng, pfx string, maxLen int, withOpen bool) []xMsg {
 	n := 1 + rng.Intn(maxLen)
 	var h []xMsg
 	bind := 0
+	if rng.Intn(12) == 0 {
+		// a statement that panics inside Execute, then the connection goes on using portals
+		id := pfx + ".boom"
+		nm := core.Pick(rng, xNames)
+		p := [][]byte{[]byte("x"), []byte("1")}
+		h = append(h, xMsg{K: "parse", Name: nm, Query: "P " + id, Prog: xProg(id, 9+rng.Intn(2))},
+			xMsg{K: "bind", Portal: "a", Name: nm, Params: p, BindID: 900}, xMsg{K: "exec", Portal: "a"}, xMsg{K: "sync"},
+			xMsg{K: "bind", Portal: "b", Name: nm, Params: p, BindID: 901}, xMsg{K: "descP", Portal: "b"}, xMsg{K: "closeP", Portal: "a"}, xMsg{K: "sync"})
+	}
 	for i := 0; i < n; i++ {
 		id := fmt.Sprintf("%s.%d", pfx, i)
 		name := core.Pick(rng, xNames)
